@@ -200,13 +200,13 @@ pub fn c13(ctx: &Ctx) -> Report {
     let mut rep = Report::new();
     rep.rule.push("E1: plain enumeration of ALL operation sequences to a depth (no state merging) on the real glide processor: process(x) for x in {0, 1, -1, 0.5, 10}, two 8-sample holds, set_time(t) for ten times from 0 to 10 s incl. 1/fs..5/fs; plus all schedules with <= 2 set_time calls at every sample index of a 40-sample glide; plus long holds (8*t*fs samples) for convergence; after every sample: output within [min(0, inputs), max(0, inputs)] +- A, with A = 2*ulp(M)/(1-p); while the input is held, from the second held sample on, the output never moves away from it nor crosses it (beyond A); non-trivial = held samples checked while the output was still moving".into());
     let thorough = ctx.tier.is_thorough();
-    let rates: Vec<(f32, u32)> = if thorough { vec![(100.0, 6), (1000.0, 6), (48000.0, 6)] } else { vec![(100.0, 4), (1000.0, 5), (48000.0, 4)] };
+    let rates: Vec<(f32, u32)> = if thorough { vec![(100.0, 6), (1000.0, 6), (48000.0, 6)] } else { vec![(100.0, 5), (1000.0, 5), (48000.0, 5)] };
     for (fs, depth) in rates {
         let m = GlideM::new(fs, vec![0.0, 1.0, -1.0, 0.5, 10.0], tmenu(fs));
         enumerate_sequences(&m, depth, ctx, &mut rep, &["C13"], &format!("all operation sequences of length {} at {} Hz", depth, fs));
     }
     // deviation-bounded schedules: a 40-sample glide 0 -> 1 with <= 2 set_time calls at every sample index
-    for fs in if thorough { vec![100.0f32, 1000.0, 48000.0] } else { vec![1000.0f32] } {
+    for fs in if thorough { vec![100.0f32, 1000.0, 48000.0] } else { vec![100.0f32, 1000.0] } {
         let tm = tmenu(fs);
         let tmr = &tm;
         let nt = tm.len() as u64;
